@@ -1,8 +1,8 @@
 ---------------------------- MODULE ServerStopMC ----------------------------
 EXTENDS ServerStop, Json
-States_all == {"coop", "swallow", "idle", "finished", "inctx", "inctx-coop", "inctx-swallow", "orphan", "swallow-gone", "coop-gone"}
+States_all == {"coop", "swallow", "idle", "finished", "inctx", "inctx-coop", "inctx-swallow", "orphan", "swallow-gone", "coop-gone", "swallow-t"}
 \* for 4 children in the quick tier: the states that reach a distinct branch of the shutdown
-States_core == {"coop", "swallow", "idle", "inctx-swallow", "swallow-gone"}
+States_core == {"coop", "swallow", "idle", "inctx-swallow", "swallow-gone", "swallow-t"}
 Racers_all == {"none", "addr", "spawned", "appended"}
 Racers_none == {"none"}
 \* one line per (configuration, outcome)
